@@ -399,6 +399,14 @@ Definition glob (bfn : list str) (pkg : str) (tree : node) (includes excludes : 
   let root := match pkg with [] => s "." | _ => pkg end in
   glob_all root includes excludes hidden syms (walk_dir bfn root tree).
 
+(* the glob() builtin of the BUILD language (src/parse/asp/builtins.go glob): every configured build file name
+   (Config.Parse.BuildFileName - the same list the Globber is created with) is appended to the exclude list, whatever
+   file the package was parsed from; then Globber.Glob.  (Gen/GlobRegex.v builtin_* regenerates the appended
+   expression and the arguments of both calls; Proof/C21_builtin.v ties them.) *)
+Definition glob_builtin (bfn : list str) (pkg : str) (tree : node) (includes excludes : list str) (hidden syms : bool)
+  : option (list str) :=
+  glob bfn pkg tree includes (excludes ++ bfn) hidden syms.
+
 (* =========================================================================================== reference *)
 (* The documented semantics, by path segments.  A pattern is a list of segments; `**` is a segment of its own. *)
 Inductive atom := ALit (c : N) | AQ | AStar | AClass (neg : bool) (items : list (N * N)).
@@ -606,6 +614,8 @@ Inductive case :=
         (out : list str)                                  (* what Globber.Glob returned, in its order *)
 | CGlobS (bfn : list str) (pkg : str) (tree : node) (includes excludes : list pat) (hidden syms : bool)
         (out : list str)                                  (* the same, patterns given structurally *)
+| CBuiltin (bfn : list str) (pkg : str) (tree : node) (includes excludes : list pat) (hidden syms : bool)
+        (out : list str)                                  (* what the asp glob() builtin returned for a BUILD file of pkg *)
 | CMatch (pattern path : str) (res : bool)                (* fs.Match(pattern, path) = patternToMatcher(".", p) *)
 | CRegex (pattern : str) (out : str)                      (* toRegexString, through the verif hook *)
 | CSeq (bfn : list str) (tree : node) (calls : list call) (outs : list (option (list str))) (final : cache).
@@ -620,6 +630,8 @@ Definition check (c : case) : bool :=
       option_eqb strs_eqb (glob bfn pkg tree inc exc hidden syms) (Some out)
   | CGlobS bfn pkg tree inc exc hidden syms out =>
       option_eqb strs_eqb (glob bfn pkg tree (map render inc) (map render exc) hidden syms) (Some out)
+  | CBuiltin bfn pkg tree inc exc hidden syms out =>
+      option_eqb strs_eqb (glob_builtin bfn pkg tree (map render inc) (map render exc) hidden syms) (Some out)
   | CMatch pattern path res =>
       match pattern_to_matcher (s ".") pattern with
       | Some p => Bool.eqb (tmatch p path) res
